@@ -247,6 +247,9 @@ func (c *conn) send(ctx context.Context, msg *kmip.RequestMessage) error {
 //   - error: An error if the context is canceled, the connection is closed, or another issue occurs.
 func (c *conn) recv(ctx context.Context) (*kmip.ResponseMessage, error) {
 	if err := c.checkAvailable(ctx); err != nil {
+		// The request has been sent already: its response may still come in, so the
+		// connection must not be reused or the next request would get that response.
+		_ = c.terminate(io.ErrClosedPipe)
 		return nil, err
 	}
 	select {
